@@ -21,3 +21,4 @@ ASSUMPTIONS = ['libstdc++ std::__introsort_loop is replaced by its contract for 
                'sequences are non-empty and sorted by the comparator (documented precondition)', 'std::sort / std::priority_queue are the real libstdc++ header code; variable-size allocations are modelled by fixed 64-byte blocks with an assertion that the request fits']
 OUTSIDE = ['more than 3 sequences, lengths above 7, key domains other than 4 or 256 values']
 EXPLANATION = 'direct harness on multisequence_partition / multisequence_selection with concrete lengths, symbolic sorted keys and symbolic rank; asserts rank sum, left <= right, tie rule, selected value and offset, exception for rank >= N'
+JOBS = {'quick': 4, 'thorough': 3}   # measured: 8-12 GB per query
